@@ -779,9 +779,80 @@ fn rel_to(base: &Path, p: &str) -> String {
 	Path::new(p).strip_prefix(base).map_or(p.to_string(), |r| r.display().to_string())
 }
 
+/// Explicit-alias leg (differential, no model): a discoverable ignore file of a
+/// sub-directory is *also* given as an explicit ignore file. What discovery returns must
+/// be the same as when an outside copy with identical content is given as the explicit
+/// file instead: listing a file explicitly must not make discovery lose or mis-tag it.
+/// Evaluated on the first listing order only.
+fn alias_check(ctx: &Ctx, g: &Group, mat: &Mat, cfg: &Config, disk: &Disk) -> (usize, Vec<(String, String)>) {
+	if disk.explicit.is_some() {
+		return (0, vec![]);
+	}
+	let Some((rel, content)) = disk
+		.files
+		.iter()
+		.find(|(rel, c)| rel.contains('/') && !rel.starts_with(".git/") && !rel.starts_with(".hg/") && NAMES.contains(&Path::new(rel.as_str()).file_name().map_or("", |n| n.to_str().unwrap_or(""))) && !c.is_empty() && c.as_str() != MARKER)
+		.map(|(r, c)| (r.clone(), c.clone()))
+	else {
+		return (0, vec![]);
+	};
+	let Some(origin) = mat.origins.first() else { return (0, vec![]) };
+	let root = origin.parent().unwrap();
+	let excludes_path = ctx.base.join("x/excludes.ignore");
+	let copy_path = ctx.base.join("x/explicit.ignore");
+	let origin_s = origin.to_string_lossy().to_string();
+	let run = |explicit: &Path| -> Option<BTreeSet<EntryKey>> {
+		let pl = place(origin, g, cfg, &ctx.base.join("x/unused.ignore"), &excludes_path);
+		write(&copy_path, &content);
+		let watches: Vec<PathBuf> = cfg.watch.iter().map(|w| origin.join(w)).collect();
+		let args = IgnoreFilesFromOriginArgs::new(origin, watches, vec![explicit.to_path_buf()]).expect("well-formed args");
+		let res = std::panic::catch_unwind(std::panic::AssertUnwindSafe(|| ctx.rt.block_on(from_origin(args))));
+		let _ = std::fs::remove_file(&copy_path);
+		unplace(pl);
+		let (files, _) = res.ok()?;
+		Some(
+			files
+				.iter()
+				// drop the entry that represents the explicit role (tagged with the origin)
+				.filter(|f| !(f.path == explicit && f.applies_in.as_ref().map(|p| p.to_string_lossy().to_string()) == Some(origin_s.clone())))
+				.map(|f| ekey(&(f.path.to_string_lossy().to_string(), f.applies_in.as_ref().map(|p| p.to_string_lossy().to_string()), f.applies_to)))
+				.collect(),
+		)
+	};
+	let alias_path = origin.join(&rel);
+	let (Some(with_copy), Some(with_alias)) = (run(&copy_path), run(&alias_path)) else {
+		return (2, vec![("C14/explicit-alias/panic".into(), "from_origin panicked".into())]);
+	};
+	let mut v = vec![];
+	for e in with_copy.difference(&with_alias) {
+		let what = if e.path == alias_path.to_string_lossy() { "the-aliased-file-itself" } else { "other-file" };
+		v.push((
+			format!("C14/explicit-alias/lost/{what}"),
+			format!("{} (applies_in={:?}) is returned when an outside copy of {rel} is the explicit ignore file, but not when {rel} itself is ; config {}", rel_to(origin, &e.path), e.applies_in.as_ref().map(|p| rel_to(root, p)), cfg.json(g)),
+		));
+	}
+	for e in with_alias.difference(&with_copy) {
+		v.push((
+			"C14/explicit-alias/extra".to_string(),
+			format!("{} (applies_in={:?}) is returned only when {rel} itself is the explicit ignore file ; config {}", rel_to(origin, &e.path), e.applies_in.as_ref().map(|p| rel_to(root, p)), cfg.json(g)),
+		));
+	}
+	(2, v)
+}
+
 fn eval_config(ctx: &Ctx, g: &Group, mat: &Mat, cfg: &Config) -> Eval {
 	let disk = disk_for(g, cfg);
 	let mut ev = Eval { calls: 0, viols: vec![], nontrivial: None, unspecified: false, sample: Value::Null };
+	{
+		let (calls, v) = alias_check(ctx, g, mat, cfg, &disk);
+		ev.calls += calls as u64;
+		let mut seen = BTreeSet::new();
+		for (k, d) in v {
+			if seen.insert(k.clone()) {
+				ev.viols.push(Viol { key: k, detail: d });
+			}
+		}
+	}
 	// per listing order: violations found there
 	let mut per_order: Vec<Vec<(String, String)>> = vec![];
 	let mut rel_results: Vec<BTreeSet<EntryKey>> = vec![];
